@@ -340,6 +340,14 @@ def check_aliases(ctx, rels):
             for node, t in native_struct_formats(f.node):
                 ctx.bad("native-struct-format:%s" % q.split(".", 1)[-1], "%s:%d" % (rel, node.lineno),
                         "%s packs / unpacks with the struct format `%s`, which has no byte-order prefix: fields wider than a byte take the machine's byte order and are ALIGNED (padding bytes between a 1-byte and an 8-byte field), unlike the wire format" % (q, t))
+        for cname, ci in sorted(m.classes.items()):
+            try:
+                found = stale_method_aliases(ctx.p, ci)
+            except Exception:
+                found = []
+            for alias, meth, anc in found:
+                ctx.bad("alias-of-overridden-method:%s.%s" % (cname, alias), "%s:%d" % (rel, ci.node.lineno),
+                        "%s overrides %s() but inherits the class-level alias `%s = %s` of %s, which is bound to %s.%s: %s.%s() runs the ancestor's version, not the override" % (cname, meth, alias, meth, anc.name, anc.name, meth, cname, alias))
     ctx.ok("no-object-shared-between-iterations-or-calls", sample={"rule": "accumulators rebound per iteration; outliving streams truncated before reuse", "functions_looked_at": n}, nontrivial=False)
 
 
@@ -504,4 +512,18 @@ def zero_replaced_by_default(fn):
         elif isinstance(n, ast.IfExp) and isinstance(n.test, ast.UnaryOp) and isinstance(n.test.op, ast.Not) and isinstance(n.test.operand, ast.Name) and n.test.operand.id in ints \
                 and isinstance(n.orelse, ast.Name) and n.orelse.id == n.test.operand.id and not (isinstance(n.body, ast.Constant) and n.body.value in (0, None)):
             out.append((n, ast.unparse(n)[:60]))
+    return out
+
+
+def stale_method_aliases(program, cls):
+    """[(alias, method, ancestor)]: an ancestor binds a class-level alias `alias = method` (bound, at class creation, to the ANCESTOR's
+    function); the class overrides `method` and does not re-bind the alias, so `obj.alias()` still runs the ancestor's version"""
+    out = []
+    for anc in program.mro(cls)[1:]:
+        for alias, v in anc.attrs.items():
+            if isinstance(v, ast.Name) and v.id in anc.methods and v.id in cls.methods and alias not in cls.attrs and alias not in cls.methods:
+                # an intermediate class may have re-bound it
+                mid = [k for k in program.mro(cls)[1:program.mro(cls).index(anc)] if alias in k.attrs or alias in k.methods]
+                if not mid:
+                    out.append((alias, v.id, anc))
     return out
